@@ -78,6 +78,9 @@ structure Row where
   implFlagsR : Nat
   implFlagsW : Nat
   implFeat : List Nat
+  /-- immediate-dependent access of operand 0: 0 = as the database says; n+1 = VPTERNLOGD/Q with truth table n and no
+      merge-masking: the destination is an input iff the table depends on its first argument (`ternlogDependsOnDest n`) -/
+  destRule : Nat
 deriving Repr, DecidableEq, Inhabited
 
 /-- bytes touched by the bit range `[lo, lo+width)`, as a byte mask capped at 64 bytes (the width of `OpRWInfo` masks) -/
@@ -146,7 +149,21 @@ def flagsOk (r : Row) : Bool := hasBits r.implFlagsR r.dbFlagsR && hasBits r.imp
 def provides (r : Row) (e : Nat) : Bool := r.implFeat.contains e || r.featImplies.any (fun p => p.2 == e && r.implFeat.contains p.1)
 def featOk (r : Row) : Bool := !r.featChecked || r.dbExt.all (provides r)
 
-def rowOkWith (lenient : Bool) (r : Row) : Bool := opsOk lenient r.mode64 r.dbOps r.implOps && flagsOk r && featOk r
+/-- VPTERNLOGD/Q (Intel SDM): every result bit is `imm8[(a <<< 2) ||| (b <<< 1) ||| c]` with `a` the destination's bit, `b`, `c` the
+    bits of the second and third operand -/
+def ternlog (imm : Nat) (a b c : Bool) : Bool := imm.testBit (4 * a.toNat + 2 * b.toNat + c.toNat)
+
+/-- the truth table depends on its first argument, i.e. the old destination value is an input of the instruction -/
+def ternlogDependsOnDest (imm : Nat) : Bool :=
+  [false, true].any fun b => [false, true].any fun c => ternlog imm true b c != ternlog imm false b c
+
+/-- the database operands with the immediate-dependent rule applied to operand 0 -/
+def effDbOps (r : Row) : List DbOp :=
+  match r.destRule, r.dbOps with
+  | n + 1, d :: ds => { d with read := ternlogDependsOnDest n } :: ds
+  | _, ds => ds
+
+def rowOkWith (lenient : Bool) (r : Row) : Bool := opsOk lenient r.mode64 (effDbOps r) r.implOps && flagsOk r && featOk r
 
 /-- the monitor of C12 on one instantiated form (full strength) -/
 def rowOk (r : Row) : Bool := rowOkWith false r
@@ -158,7 +175,7 @@ def rowWhy (r : Row) : String :=
   if !flagsOk r then "status-flags" else
   if !featOk r then "features" else
   if r.dbOps.length != r.implOps.length then "operand-count" else
-  let bad := (r.dbOps.zip r.implOps).zipIdx.filterMap fun ((d, i), n) =>
+  let bad := ((effDbOps r).zip r.implOps).zipIdx.filterMap fun ((d, i), n) =>
     if opOk false r.mode64 d i then none else
     some (if !accessOk d i then s!"access op{n}" else if !zextOk r.mode64 d i then s!"zext op{n}"
           else if !runOk d i then s!"consecutive op{n}" else if !wideMaskOk d i then s!"widemask op{n}"
@@ -167,6 +184,11 @@ def rowWhy (r : Row) : String :=
   match bad.filter (fun w => !w.startsWith "regmem-no-memory-form") ++ bad with
   | [] => "ok"
   | w :: _ => w
+
+example : ternlogDependsOnDest 0xFF = false := by decide
+example : ternlogDependsOnDest 0x55 = false := by decide   -- NOT c
+example : ternlogDependsOnDest 0x08 = true := by decide    -- (NOT a) AND b AND c
+example : ternlogDependsOnDest 0xF0 = true := by decide    -- a
 
 /-! sanity examples: `add eax, ebx`-like destination (32-bit X operand), reported as asmjit reports it -/
 example : byteMask 0 32 = 0xF := by decide
